@@ -80,7 +80,9 @@ C05Verdict(R) ==
 
 C04Verdict(R) ==
   IF ~R.fick.chk.ok THEN "no-verdict"
-  ELSE IF R.fick.chk.sev >= Floor(s.ev) THEN "ok" ELSE "below-floor"
+  ELSE IF R.fick.chk.sev < Floor(s.ev) THEN "below-floor"
+  ELSE IF R.fick.chk.inj_ran /\ R.fick.chk.inj_sev < OVERTLY_MALICIOUS THEN "below-floor-after-injecting-eval"
+  ELSE "ok"
 
 C19Verdict(R) == C19Why(R.fick.dec.ok, R.fick.chk)
 
@@ -89,7 +91,8 @@ C09TVerdict(R) ==
   ELSE IF ~R.fick.trace.ok THEN "trace-raised"
   ELSE IF ~R.fick.trace.ops_ok THEN "trace-opcodes"
   ELSE IF ~R.fick.trace.same_ast THEN "trace-changed-program"
-  ELSE IF ~R.fick.trace.prefix_ok THEN "trace-" \o R.fick.trace.prefix_why ELSE "ok"
+  ELSE IF ~R.fick.trace.prefix_ok THEN "trace-" \o R.fick.trace.prefix_why
+  ELSE IF ~R.fick.trace.observer_ok THEN "trace-changed-later-answers" ELSE "ok"
 
 Finish ==
   LET R == T[tid] IN
